@@ -988,7 +988,7 @@ class FuncCeiling(ValueFunc):
     def execute(self, args, environment, pos):
         if args.isNull("x"):
             return NULL
-        return ValueDecimal(math.ceil(args.getNumerical("x").value))
+        return ValueDecimal(float(math.ceil(args.getNumerical("x").value)))
 
 
 class FuncChr(ValueFunc):
@@ -1187,7 +1187,7 @@ class FuncDecimal(ValueFunc):
         return ["obj"]
 
     def execute(self, args, environment, pos):
-        return args.getAsDecimal("obj")
+        return ValueDecimal(float(args.getAsDecimal("obj").value))
 
 
 class FuncDeleteAt(ValueFunc):
@@ -1799,7 +1799,7 @@ class FuncFloor(ValueFunc):
     def execute(self, args, environment, pos):
         if args.isNull("x"):
             return NULL
-        return ValueDecimal(math.floor(args.getNumerical("x").value))
+        return ValueDecimal(float(math.floor(args.getNumerical("x").value)))
 
 
 class FuncFormatDate(ValueFunc):
@@ -3410,7 +3410,7 @@ class FuncRound(ValueFunc):
         digits = 0
         if args.hasArg("digits"):
             digits = args.getInt("digits").value
-        return ValueDecimal(round(x.asDecimal().value, digits))
+        return ValueDecimal(float(round(x.asDecimal().value, digits)))
 
 
 class FuncRun(ValueFunc):
@@ -4120,7 +4120,7 @@ class FuncTimestamp(ValueFunc):
         return []
 
     def execute(self, args, environment, pos):
-        return ValueInt(datetime.datetime.now().timestamp())
+        return ValueInt(int(datetime.datetime.now().timestamp()))
 
 
 class FuncTrim(ValueFunc):
